@@ -140,7 +140,7 @@ Qed.
 (** the same bytes as the demo of the seeded change observes on the Go code *)
 Example pooled_bytes :
   nth_error answers_pooled 1
-    = Some (Ok [181; 238; 156; 114; 1; 1; 2; 1; 0; 9; 0; 2; 2; 0; 1; 1; 0; 8; 222; 173; 190; 239]%N) /\
+    = Some (Ok [181; 238; 156; 114; 1; 1; 2; 1; 0; 11; 0; 2; 2; 0; 1; 1; 0; 8; 222; 173; 190; 239]%N) /\
   nth_error answers_code 1
-    = Some (Ok [181; 238; 156; 114; 1; 1; 3; 1; 0; 11; 0; 2; 2; 0; 1; 2; 0; 8; 222; 173; 190; 239; 0; 0]%N).
+    = Some (Ok [181; 238; 156; 114; 1; 1; 3; 1; 0; 13; 0; 2; 2; 0; 1; 2; 0; 8; 222; 173; 190; 239; 0; 0]%N).
 Proof. split; vm_compute; reflexivity. Qed.
